@@ -167,6 +167,37 @@ impl Vp {
                     },
                 }
             }
+            // damage: close the log, cut file `id` to its first `off` bytes, open the directory again (a new VLog with a
+            // new block cache, as after a restart); later appends go to the highest-numbered file from its end
+            ["cut", id, off] => {
+                let id: u32 = id.parse().unwrap();
+                let off: u64 = off.parse().unwrap();
+                if let Some(l) = self.log.take() {
+                    if l.close().is_err() {
+                        return "err:close".into();
+                    }
+                }
+                let path = self.logdir.join("vlog").join(format!("{:020}.vlog", id));
+                match std::fs::OpenOptions::new().write(true).open(&path) {
+                    Err(_) => return "none".into(),
+                    Ok(f) => {
+                        let len = f.metadata().map(|m| m.len()).unwrap_or(0);
+                        if off > len {
+                            return "bad-cut".into();
+                        }
+                        if f.set_len(off).is_err() || f.sync_all().is_err() {
+                            return "err:cut".into();
+                        }
+                    }
+                }
+                match fv::Log::open(&self.logdir, self.max, self.full) {
+                    Ok(l) => {
+                        self.log = Some(l);
+                        self.state()
+                    }
+                    Err(_) => "refuse".into(),
+                }
+            }
             ["reopen"] => {
                 if let Some(l) = self.log.take() {
                     if l.close().is_err() {
